@@ -67,6 +67,24 @@ def generate(rng, tier):
             cases.append(Case(["W %s %s" % (sp.s(), ops_line(ops2, fin)),
                                "W %s %s %s" % (sp.s(), ops_line(ops2, fin), ",".join(script))], "ioerr",
                               {"ops": [(o, E.tag_str(t) if t else "") for o, t in ops2], "final": fin}))
+    # every stack of 1-3 masters left open, in every known / unknown-size / explicit-width combination, some content at each level, then
+    # flush() or into_inner(): "close all open masters and deliver everything" (a deterministic family: not left to the random draw)
+    import itertools
+    bsp = E.base_spec()
+    chain = [E.ROOT, E.PARENT, E.SUB]
+    leaf = {0: ("u", E.INT, 5), 1: ("b", E.CHILD, b"\x07\x08"), 2: ("u", E.LEAFU, 300)}
+    for depth in (1, 2, 3):
+        for opts in itertools.product(["d", "u", "2"], repeat=depth):
+            for final in ("x", "f"):
+                for with_leaves in (True, False):
+                    ops = []
+                    for lvl in range(depth):
+                        ops.append((opts[lvl], ("s", chain[lvl])))
+                        if with_leaves:
+                            ops.append(("d", leaf[lvl]))
+                    meta = {"ops": [(o, E.tag_str(t)) for o, t in ops], "final": final, "rej": None}
+                    cases.append(Case(["X %s %s %s p" % (bsp.s(), ops_line(ops, final), E.cfg_str(eof=0)),
+                                       "X %s %s %s f" % (bsp.s(), ops_line(ops, final), E.cfg_str(eof=1))], "openstack", meta))
     return cases
 
 
